@@ -2619,6 +2619,10 @@ func (d *svDirector) c08EndBlock(br *rig.BlockRecord, pre, post *svSnap) {
 			} else if pc.RepeatedTotal > 0 && int64(pc.BatchCounter) >= pc.RepeatedTotal {
 				run.Count("total-reached", 1)
 				run.Class("repeated-completed", fmt.Sprint("total=", pc.RepeatedTotal))
+			} else if pc.RepeatedTotal > 0 && pc.State == svtypes.RUNNING {
+				// still running (nobody ended it) and below its total: it had batches left to issue
+				run.Eval(1)
+				run.Violation("C08:service:repeated-context-removed-below-its-total", detail, "repeated context %s (running, total %d) was removed at height %d after only %d batches", id, pc.RepeatedTotal, H, pc.BatchCounter)
 			}
 			if len(newByCtx[id]) > 0 {
 				run.Violation("C08:service:requests-issued-for-removed-context", detail, "context %s was removed at height %d but %d new requests were issued for it", id, H, len(newByCtx[id]))
